@@ -33,4 +33,8 @@ const std::vector<uint16_t>& words_of_entry(int e);
 /// all defined first words whose handler name is `name` (and optionally whose form string equals `form`)
 std::vector<uint16_t> words_named(const std::string& name, const std::string& form = "");
 
+/// first word with the given form whose operand values match (`-1` = any); returns -1 if none. For operands that live in
+/// the second word the value is ignored.
+int find_word(const std::string& form, const std::vector<long>& values);
+
 } // namespace optable
